@@ -236,8 +236,14 @@ def r141(ctx, R):
              [('%d.%d' % w[0], '%d.%d' % w[1] if w[1] else None)
               for w in wins], func=wins[0][3])
     # the schema list of GET /allocation_candidates names existing schemas
-    _lname, lst = version_list_const(
-        ctx, 'placement.handlers.allocation_candidate')
+    try:
+        _lname, lst = version_list_const(
+            ctx, 'placement.handlers.allocation_candidate')
+    except model.AnalysisError:
+        # no list of versions by which a schema is looked up by name: the
+        # selection is then an ordinary chain, decided by R14.2
+        R.note('R14.1 no by-name schema list in allocation_candidate')
+        return
     env = ctx.prog.consteval.module_env('placement.schemas.'
                                         'allocation_candidate')
     okl = isinstance(lst, list) and all(
@@ -590,10 +596,13 @@ def route_gates(ctx, fs):
             both = isinstance(up, ast.If) and up.test is top and (bool(
                 up.orelse) or _rest_after_guard(up)) or isinstance(
                     up, ast.IfExp) and up.test is top
-            if both:
-                out.add('~%d' % g.minv[1])
-            else:
-                out.add(('-' if neg else '+') + '%d' % g.minv[1])
+            # one-armed negated gates are '-N'; everything else is '+N'
+            # (a two-armed gate reads the same whichever way round it is
+            # written, and a guard clause is two-armed)
+            # polarity is not part of the signature: "if not m: A" and
+            # "if m: return ...; A" are the same gate; inverted gates are
+            # decided per version by R14.2 / R14.3 / R14.6
+            out.add('+%d' % g.minv[1])
     for f in fs:
         if f.version_window:
             lo, hi, st = f.version_window
